@@ -81,6 +81,10 @@ class TileEngine(Engine):
         if isinstance(v, DecodeResult) and isinstance(t, (ast.Tuple, ast.List)):
             vals = [UNK] * len(t.elts)
             vals[1] = v.length
+            if len(vals) == 3:
+                # (operation, length, flags): the flags the decoder hands back for this instruction (ghost: remembered on the path)
+                vals[2] = self.fresh('decoder_flags', 0, 255)
+                self.path.decoder_flags = vals[2]
             for a, b in zip(t.elts, vals):
                 self.assign(a, b)
             return
@@ -95,6 +99,9 @@ class TileEngine(Engine):
             if attr == 'append':
                 def app(e, args, kwargs, n, obj=obj):
                     obj.n = obj.n + 1
+                    hook = getattr(e, 'append_hook', None)
+                    if hook is not None:
+                        hook(e, args[0] if args else None, n)
                     return None
                 return CallModel(app, 'append')
             raise poly.Refuse('list method ' + attr)
@@ -150,11 +157,25 @@ def check_disassemble(rep):
                 e.oblige('emit.contiguous', cmpop('==', address, p.cursor), n)
                 e.oblige('emit.nonempty', cmpop('>=', length, 1), n)
                 p.cursor = p.cursor + length
-                return ObjModel(None, name='instruction')
+                ins = ObjModel(None, name='instruction')
+                ins.decoded = len(args) == 3        # imaker(address, operation, bytes): the decoder's operation; _defb_line(address, bytes): the DEFB fallback
+                return ins
             me = ObjModel(None, name='disassembler', cls=Disassembler)
             me.attrs.update({'snapshot': SnapModel(), 'ops': UNK, 'imaker': CallModel(emit, 'imaker'), 'wrap': wrap, 'rst_handler': None,
                              '_defb_line': CallModel(emit, '_defb_line')})
             p.me = me
+            p.decoder_flags = None
+            from skoolkit.disassembler import VARIANT
+
+            def on_append(e, ins, n):
+                # an instruction made from the decoder's operation carries the decoder's variant flag (it is what makes
+                # sna2skool write the @bytes directive that keeps a variant encoding through re-assembly)
+                if isinstance(ins, ObjModel) and getattr(ins, 'decoded', False):
+                    fl = e.path.decoder_flags if e.path.decoder_flags is not None else 0
+                    v = ins.attrs.get('variant')
+                    e.oblige('emit.variant_flag_from_the_decoder', False if v is None or not isinstance(v, (int, SV)) else cmpop('==', v, fl & VARIANT), n)
+            eng.append_hook = on_append
+            eng.count_lists = True
 
             def inv(e, loc):
                 a = loc['address']
@@ -197,6 +218,24 @@ def concrete_tiling(start, end, wrap, seed=0):
         cur += n
     if cur < end:
         return [('range not covered', cur, end)]
+    # the variant flag: an instruction whose text does not assemble back to its bytes must be flagged (sna2skool then
+    # writes @bytes); variant encodings planted at the top of memory (they wrap when `wrap` is on) and in the middle
+    from skoolkit.z80 import Assembler
+    asm = Assembler()
+    for base_addr in (65535, 65534, 65533, 40000):
+        for seq in ([0xED, 0x7C], [0xED, 0x63, 0x00, 0x03], [0xED, 0x4E], [0xED, 0x55], [0xDD, 0xCB, 0x05, 0x58]):
+            mem2 = list(mem)
+            for i, b in enumerate(seq):
+                mem2[(base_addr + i) & 0xFFFF] = b
+            if base_addr + len(seq) > 65536 and not wrap:
+                continue
+            d2 = Disassembler(mem2, _mkcfg('ALL', wrap, False, False))
+            ins = d2.disassemble(base_addr, min(65536, base_addr + 1), 'n')[0]
+            if list(ins.bytes) != seq:
+                continue
+            back = list(asm.assemble(ins.operation, ins.address) or ())
+            if back != list(ins.bytes) and not ins.variant:
+                return [('variant encoding not flagged', ins.address, ins.operation, 'bytes %s assemble back to %s' % (list(ins.bytes), back))]
     return []
 
 
